@@ -66,7 +66,7 @@ var (
 // MainC08 is the entry point of the C08 check.
 func MainC08() {
 	ev.Main("C08", "exploration",
-		"generated worlds (permanodes with tag/title/camliNodeType/camliDefVis/camliContent/camliMember/camliPath/numeric attributes, custom edge attributes (seeAlso, camliContent naming a permanode; superseded and removed edges) for relation constraints with an explicit edge type in both directions, explicit date attributes (dateCreated, startDate, paymentDueDate, datePublished, dateModified) holding instants shared with other permanodes in several RFC 3339 zone notations, values added repeatedly and then removed, sets with several multi-tagged members, deleted and claim-less permanodes, files with names/sizes/mtimes/wholeRefs incl. two files of one content, nested directories with shared children, plain blobs) x generated constraint trees (depth<=4, nodes with one or several fields set, valueInSet over logical sub-trees, `at` instants at value removals) over the supported fragment x every sort (incl. map) x limits {-1,1,3,0,|M|,|M|-1,|M|+1} x index modes {classic, corpus scanned, corpus incremental, corpus staged = the world delivered in 5 stages with the same queries after every stage, claims often before the file they name and stages without any claim}; each result is compared with a reference evaluator over what has been delivered (set equality at limit -1, order by the documented key, valid first-N) ; distinct = (world, constraint, sort, limit, mode[@stage]); non-trivial = the reference match set is neither empty nor everything",
+		"generated worlds (permanodes with tag/title/camliNodeType/camliDefVis/camliContent/camliMember/camliPath/numeric attributes, custom edge attributes (seeAlso, camliContent naming a permanode; superseded and removed edges) for relation constraints with an explicit edge type in both directions, explicit date attributes (dateCreated, startDate, paymentDueDate, datePublished, dateModified) holding instants shared with other permanodes in several RFC 3339 zone notations, values added repeatedly and then removed, sets with several multi-tagged members, deleted and claim-less permanodes, files with names/sizes/mtimes/wholeRefs incl. two files of one content, nested directories with shared children, plain blobs) x generated constraint trees (depth<=4, nodes with one or several fields set, valueInSet over logical sub-trees, `at` instants at value removals) over the supported fragment x every sort (incl. map) x limits {-1,1,3,0,|M|,|M|-1,|M|+1} x index modes {classic, corpus scanned, corpus incremental, corpus staged = the world delivered in 5 stages with the same queries after every stage, claims often before the file they name and stages without any claim}; each result is compared with a reference evaluator over what has been delivered (set equality at limit -1, order by the documented key, valid first-N) ; special-time worlds: claim dates straddling 1970-01-01T00:00:00Z with permanodes created EXACTLY at the Unix epoch (date attributes in several zone notations, a camliContent file with modtime 0) or 1 ns / 1 s / 999 ms next to it, and worlds with date attributes before 1678 / after 2262 (years 1, 1215, 1455, 2500, 9999, the ends of the int64-nanosecond range, ties across notations), each with directed time/modTime constraints whose bounds lie exactly on those instants (alone, negated, and-ed, two-sided) plus the directed and random constraint lists, under every sort and limit; distinct = (world, constraint, sort, limit, mode[@stage]); non-trivial = the reference match set is neither empty nor everything",
 		run)
 }
 
@@ -75,6 +75,7 @@ func run(r *ev.Run) {
 	index.SetVerboseCorpusLogging(false)
 	r.Assume("file MIME types are read back from the index (MIME sniffing is not this property's subject); every other fact comes from what the harness generated")
 	r.Assume("worlds contain no deleted attribute claims (C07's subject); string data is ASCII; a permanode's time follows pkg/index Corpus.PermanodeTime/PermanodeAnyTime: paymentDueDate, startDate, dateCreated attribute (first value, RFC 3339, any zone notation), time of the camliContent file, datePublished, dateModified, date of the camliContent claim, modtime")
+	r.Assume("explicit date attributes are ordinary attribute values and may hold any RFC 3339 instant (years 0001..9999), generated claim dates and file times stay within 1900..2020; not generated: a time constraint whose upper bound (before) lies within the second 1970-01-01T00:00:00Z, which perkeep reads as 'no bound' (types.Time3339.IsAnyZero) and the documentation does not mention; a lower bound (after, documented as >=) is unset only when it is the zero time")
 	r.Assume("documented refusals are accepted as errors: sort by mod; sort by created/-created/-mod on constraints that are not syntactically permanode-only; created-ascending when a matched permanode has no time; classic mode (no corpus) is only given the fragment implemented without a corpus and the sorts unsorted/blobref")
 	search.VerifSetCandSourceHook(func(name string) { curPlanner = name })
 
